@@ -342,7 +342,7 @@ impl Engine for CliSim {
         }
         for step in 0..steps {
             // --- which workspace
-            let in_ws2 = have_ws2 && ch.chance(1, 3);
+            let in_ws2 = have_ws2 && ch.chance(if prop == "C40" { 3 } else { 2 }, 6);
             let cwd: PathBuf = if in_ws2 { ws2.clone() } else { ws1.clone() };
             let ws_name = if in_ws2 { "ws2" } else { "default" };
             let Some((_, repo_before)) = load(&ws1) else {
@@ -380,7 +380,21 @@ impl Engine for CliSim {
                 }
             };
             // --- choose the command
-            let k = ch.weighted(&[5, 3, 3, 2, 2, 2, 2, 3, 1, 1, 3, 2, 1, 1, 1, 1, 1, 1, 1, 1, 1, 1, 1, 1, 1, 1, 1, 1, 1, 1]);
+            // per-property focus: C41 histories change refs and walk the operation
+            // log more often, C40 histories get their second workspace early
+            let mut weights = [5usize, 3, 3, 2, 2, 2, 2, 3, 1, 1, 3, 2, 1, 1, 1, 1, 1, 1, 1, 1, 1, 1, 1, 1, 1, 1, 1, 1, 1, 1];
+            match prop {
+                "C41" => {
+                    for k in [7, 10, 11, 12, 28, 29] {
+                        weights[k] *= 3;
+                    }
+                }
+                "C40" => {
+                    weights[13] = if step < 3 { 12 } else { 2 };
+                }
+                _ => {}
+            }
+            let k = ch.weighted(&weights);
             kinds.push(k as u8);
             let mut kind = Kind::Normal;
             let mut judged_immutable = true;
@@ -520,6 +534,10 @@ impl Engine for CliSim {
                 HashSet::new()
             };
             let head_before = repo_before.op_id().hex();
+            let has_wc_commit_before = {
+                let wsn: jj_lib::ref_name::WorkspaceNameBuf = ws_name.into();
+                repo_before.view().get_wc_commit_id(&wsn).is_some()
+            };
             // --- run
             let (ok, msg) = jj(&args, &cwd);
             let first_line = msg.lines().find(|l| !l.trim().is_empty()).unwrap_or("").to_string();
@@ -547,7 +565,17 @@ impl Engine for CliSim {
                 let disk_now = disk_files(&cwd);
                 let mut cache = BTreeMap::new();
                 for (p, b) in &disk_before {
-                    if disk_now.get(p) == Some(b) {
+                    // A command that failed (refused in a stale workspace, bad
+                    // revision, immutable target) may not have snapshotted at all:
+                    // then the content only has to be still on disk. A command
+                    // that succeeded has snapshotted first, so the content must
+                    // be in a recorded working-copy commit even if it is also
+                    // still on disk - that is what "can be recovered from the
+                    // operation log" means.
+                    // (a workspace without a working-copy commit - after an undo or
+                    // op restore reaching back before it was added - is not
+                    // snapshotted either: "No working copy")
+                    if (!ok || !has_wc_commit_before) && disk_now.get(p) == Some(b) {
                         continue;
                     }
                     if !content_recorded(&loader, &ops, ws_name, p, b, &mut cache) {
@@ -556,9 +584,11 @@ impl Engine for CliSim {
                             "working_copy_content_lost",
                             "clisim:working_copy_content_lost".into(),
                             format!(
-                                "file {ws_name}:{p} ({:?}) was on disk when `jj {}` started; afterwards it is neither on disk nor in any working-copy commit of that workspace recorded in the operation log",
+                                "file {ws_name}:{p} ({:?}) was on disk when `jj {}` started ({}); afterwards it is not in any working-copy commit of that workspace recorded in the operation log{}",
                                 String::from_utf8_lossy(b).trim(),
-                                args.join(" ")
+                                args.join(" "),
+                                if ok { "the command succeeded" } else { "the command failed" },
+                                if ok { "" } else { " and no longer on disk" }
                             ),
                             seq,
                         );
